@@ -57,7 +57,7 @@ def parse_cat(stdout):
             cell = ln[c:c + 20]
             if not cell.strip():
                 continue
-            toks = cell.split()
+            toks = [t for t in cell.split(b" ") if t]     # (names may hold control characters, never blanks)
             locked = False
             if len(toks) == 2 and toks[1] == b"L":
                 locked = True
